@@ -225,6 +225,18 @@ impl Connection {
         Ok(())
     }
     
+    /// Has the peer closed the connection? Looks at the socket without consuming anything, so it
+    /// can be asked about a blocked connection, which is not read from.
+    pub fn peer_closed(&self) -> bool {
+        let mut probe = [0u8; 1];
+        match self.stream.peek(&mut probe) {
+            Ok(0) => true,
+            Ok(_) => false,
+            Err(e) if e.kind() == ErrorKind::WouldBlock || e.kind() == ErrorKind::Interrupted => false,
+            Err(_) => true,
+        }
+    }
+    
     /// Drop whatever is still unsent (the peer is gone, the bytes can never be delivered)
     pub fn abandon_pending_writes(&mut self) {
         self.write_buffer.clear();
